@@ -10,8 +10,12 @@
 (*                                  outline} (built-in heading style, a    *)
 (*                                  custom style basedOn it directly / in  *)
 (*                                  two steps, a direct outline level)     *)
-(*    LI (children, lvl, num)       list item at depth lvl (0-based) of a  *)
-(*                                  bullet / decimal list                  *)
+(*    LI (children, lvl, num, how)  list item at depth lvl (0-based) of a  *)
+(*                                  bullet / decimal list; lists are trees *)
+(*                                  written as depth sequences: they may   *)
+(*                                  start deep, jump levels, contain empty *)
+(*                                  items and items with a paragraph after *)
+(*                                  a nested list (how, see BlockOK)       *)
 (*    TBL(rows, cols, hm, vm, mp, rc) table; hm / vm = anchors of          *)
 (*                                  horizontal (gridSpan=2 | columns-      *)
 (*                                  spanned=2) and vertical (vMerge |      *)
@@ -162,17 +166,29 @@ BlockOK(f, b) ==
           /\ NTok(b) >= 1                       \* no token-less paragraphs
     \* DOCX has nine heading levels (outline levels 0..8, Heading1..Heading9), ODT ten
     /\ b.k = "H" => b.lvl \in 1..(IF f = "docx" THEN 9 ELSE 10) /\ b.how \in Hows
-    /\ b.k = "LI" => b.lvl \in 0..8 /\ b.num \in {"bullet", "decimal"}
+    \* list items: any depth (a list may start deep or jump levels); "decimalR" is a second
+    \* numbering instance that restarts the numbering.  how: "" an item | "emp" an item
+    \* preceded by an empty item of its level | "cont" a further paragraph of the still
+    \* open item of this depth, after a nested list (ODT) | "wrapp" the item-less wrappers
+    \* a level jump needs carry an empty paragraph instead of nothing (ODT)
+    /\ b.k = "LI" => /\ b.lvl \in 0..8 /\ b.num \in {"bullet", "decimal", "decimalR"}
+                      /\ b.how \in (IF f = "docx" THEN {"", "emp"} ELSE {"", "emp", "cont", "wrapp"})
     /\ b.k = "S" => b.lvl \in 1..9
     /\ b.k # "S" => b.sty = 0
 
-\* list items: a run of items of one list starts at depth 0 and deepens by at
-\* most one level per item (so the nested ODF rendering needs no empty item)
+\* a continuation paragraph belongs to an item that is still open: an earlier item of the
+\* same list at the same depth with only deeper blocks (at least one) in between
 ListOK(body) ==
-    \A i \in 1..Len(body) : body[i].k = "LI" =>
-        IF i > 1 /\ body[i - 1].k = "LI" /\ body[i - 1].num = body[i].num
-        THEN body[i].lvl <= body[i - 1].lvl + 1
-        ELSE body[i].lvl = 0
+    \A i \in 1..Len(body) : (body[i].k = "LI" /\ body[i].how = "cont") =>
+        /\ i > 1 /\ body[i - 1].k = "LI" /\ body[i - 1].lvl > body[i].lvl
+        /\ \E j \in 1..(i - 1) :
+              /\ body[j].k = "LI" /\ body[j].lvl = body[i].lvl
+              /\ \A q \in j..i : body[q].k = "LI" /\ body[q].num = body[i].num
+              /\ \A q \in (j + 1)..(i - 1) : body[q].lvl > body[i].lvl
+
+\* list depths are compared relative to the shallowest item of the document
+MinLI(body) == LET ls == {body[i].lvl : i \in {q \in 1..Len(body) : body[q].k = "LI"}} IN
+               IF ls = {} THEN 0 ELSE CHOOSE m \in ls : \A x \in ls : m <= x
 
 IsDoc(d) ==
     /\ d.fmt \in {"docx", "odt"}
@@ -219,7 +235,7 @@ Item(d, i) ==
             IN [k |-> IF h = -1 THEN "PH" ELSE IF h = 0 THEN "P" ELSE "H",
                 lvl |-> IF h < 1 THEN 0 ELSE h, mdlvl |-> IF h < 1 THEN 0 ELSE MdLvl(h), ids |-> ids,
                 gaps |-> GapsOf(FlatCh(b.ch)), rows |-> 0, cols |-> 0, cells |-> <<>>]
-       ELSE [k |-> b.k, lvl |-> IF b.k = "P" THEN 0 ELSE b.lvl,
+       ELSE [k |-> b.k, lvl |-> IF b.k = "P" THEN 0 ELSE IF b.k = "LI" THEN b.lvl - MinLI(d.body) ELSE b.lvl,
              mdlvl |-> IF b.k = "H" THEN MdLvl(b.lvl) ELSE 0, ids |-> ids,
              gaps |-> GapsOf(FlatCh(b.ch)), rows |-> 0, cols |-> 0, cells |-> <<>>]
 
@@ -257,7 +273,8 @@ Order == AllIds(out) = [i \in 1..Len(AllIds(out)) |-> i]
 Structure == \A i \in 1..pos :
                 /\ doc.body[i].k # "S" => out[i].k = doc.body[i].k
                 /\ doc.body[i].k = "S" => out[i].k \in {"P", "H", "PH"} /\ (out[i].k = "H" <=> out[i].lvl >= 1)
-                /\ doc.body[i].k \in {"H", "LI"} => out[i].lvl = doc.body[i].lvl
+                /\ doc.body[i].k = "H" => out[i].lvl = doc.body[i].lvl
+                /\ doc.body[i].k = "LI" => out[i].lvl = doc.body[i].lvl - MinLI(doc.body)
                 /\ Len(out[i].ids) = NTok(doc.body[i])
                 /\ Len(out[i].gaps) = (IF doc.body[i].k = "TBL" THEN 0 ELSE Len(out[i].ids) - 1)
 
